@@ -10,9 +10,10 @@ Open Scope list_scope.
 Definition o0 : opts := {| noID := false; noMeta := false; noRelM := false; inclInvalid := false |}.
 Definition meta1 : meta := {| mt_ts := None; mt_version := 1; mt_changeset := 0; mt_user := ""; mt_uid := 0 |}.
 Definition nd (i x y : Z) : node := {| n_id := i; n_lon := x; n_lat := y; n_tags := []; n_meta := meta1 |}.
+(* [area] documents what Way.Polygon() answers for the way; Properties/C17 checks it *)
 Definition wy (i : Z) (ts : tags) (area : bool) (ids : list Z) : way :=
   {| w_id := i; w_nodes := map (fun j => {| wn_id := j; wn_lon := 0; wn_lat := 0 |}) ids;
-     w_tags := ts; w_meta := meta1; w_area := area |}.
+     w_tags := ts; w_meta := meta1 |}.
 Definition mw (ref : Z) (role : string) : member :=
   {| m_type := TWay; m_ref := ref; m_role := role; m_orient := 0; m_nodes := [] |}.
 Definition mn (ref : Z) (role : string) : member :=
